@@ -64,11 +64,37 @@ type vctx struct {
 	mu   sync.Mutex
 	err  error
 	dead int32
+	// A submitter may be descheduled between handing its call over and looking at its context (and
+	// result): Done(), when the submitting goroutine itself asks for the first time, can be held until
+	// the plan says so (slow = 1, step mode) or yields the processor a number of times (free-running).
+	// By then the lane may already have answered, so that result and context end are both there.
+	owner   int64 // goroutine id of the submitter
+	slow    int32 // 1: hold the submitter's first Done(); 2: was held
+	holding int32 // the submitter is parked in Done()
+	hold    chan struct{}
+	onHold  func()
+	yield   int
 }
 
-func newCtx(id int) *vctx                         { return &vctx{id: id, done: make(chan struct{})} }
-func (c *vctx) Deadline() (time.Time, bool)       { return time.Time{}, false }
-func (c *vctx) Done() <-chan struct{}             { return c.done }
+func newCtx(id int) *vctx {
+	return &vctx{id: id, done: make(chan struct{}), hold: make(chan struct{})}
+}
+func (c *vctx) Deadline() (time.Time, bool) { return time.Time{}, false }
+func (c *vctx) Done() <-chan struct{} {
+	if atomic.LoadInt32(&c.slow) == 1 && int64(goid()) == atomic.LoadInt64(&c.owner) &&
+		atomic.CompareAndSwapInt32(&c.slow, 1, 2) {
+		if c.onHold != nil {
+			c.onHold()
+		}
+		atomic.StoreInt32(&c.holding, 1)
+		<-c.hold
+		atomic.StoreInt32(&c.holding, 0)
+	}
+	for i := 0; i < c.yield; i++ {
+		runtime.Gosched()
+	}
+	return c.done
+}
 func (c *vctx) Value(key interface{}) interface{} { return nil }
 func (c *vctx) Err() error                        { c.mu.Lock(); defer c.mu.Unlock(); return c.err }
 func (c *vctx) ended() bool                       { return atomic.LoadInt32(&c.dead) == 1 }
@@ -239,7 +265,9 @@ func newWorld(w *tr.W, src, kind string, nl, qopt int, withIdx, nowg bool) *worl
 	}
 	wd.calls = make([]*call, maxCalls+1)
 	for i := 1; i <= maxCalls; i++ {
+		id := i
 		wd.calls[i] = &call{id: i, ctx: newCtx(i), gate: make(chan string), status: "idle"}
+		wd.calls[i].ctx.onHold = func() { wd.log.add(tr.E{"ev": "held", "c": id}) }
 	}
 	// one function value per executor, used for every call like a caller would (the call's identity
 	// travels in the parameter)
@@ -323,7 +351,10 @@ func clamp(x int) int {
 // executor uses submit directly: it is a lane goroutine).
 //
 //go:noinline
-func (wd *world) callerSubmit(c *call) tr.E { return wd.submit(c) }
+func (wd *world) callerSubmit(c *call) tr.E {
+	atomic.StoreInt64(&c.ctx.owner, int64(goid()))
+	return wd.submit(c)
+}
 
 // submit performs the call of caller c on the real executor and classifies the reply.
 func (wd *world) submit(c *call) (rep tr.E) {
@@ -501,6 +532,9 @@ func (wd *world) prepare(c *call, hv int, fail, pre, gated bool) bool {
 	c.h, c.hv, c.fail, c.pre, c.gated = cl, hv, fail, pre, gated
 	if pre {
 		c.ctx.cancel()
+		if !gated { // free-running: the submitter dawdles before it looks at its context
+			c.ctx.yield = 5 + (c.id*13+cl*7)%40
+		}
 	}
 	wd.log.add(tr.E{"ev": "inv", "c": c.id, "h": cl, "fail": fail, "pre": pre, "hv": strconv.Itoa(hv)})
 	return true
@@ -539,6 +573,7 @@ type act struct {
 	H     int    `json:"h"`
 	Fail  bool   `json:"fail"`
 	Pre   bool   `json:"pre"`
+	Slow  bool   `json:"slow"` // the submitter is held in its first Done() until a `done` step
 	By    int    `json:"by"`
 	Kind  string `json:"kind"`
 	Nl    int    `json:"nl"`
@@ -555,8 +590,23 @@ func (wd *world) atGate() int {
 	return 0
 }
 
+// held returns the lowest call whose submitter is parked in Done() (0: none).
+func (wd *world) held() int {
+	for i := 1; i <= maxCalls; i++ {
+		if atomic.LoadInt32(&wd.calls[i].ctx.holding) == 1 {
+			return i
+		}
+	}
+	return 0
+}
+
 func (wd *world) applicable(a act) bool {
 	switch a.Op {
+	case "done": // the submitter of call C (0: whichever is held) gets to look at its context
+		if a.C == 0 {
+			return wd.held() != 0
+		}
+		return a.C >= 1 && a.C <= maxCalls && atomic.LoadInt32(&wd.calls[a.C].ctx.holding) == 1
 	case "run":
 		return !wd.started
 	case "stopi":
@@ -589,6 +639,12 @@ func (wd *world) applicable(a act) bool {
 
 func (wd *world) step(a act) {
 	switch a.Op {
+	case "done":
+		if a.C == 0 {
+			a.C = wd.held()
+		}
+		wd.log.add(tr.E{"ev": "look", "c": a.C})
+		wd.calls[a.C].ctx.hold <- struct{}{}
 	case "run":
 		wd.doRun()
 	case "stopi": // never on the driver: Stop may legitimately wait for the lanes
@@ -603,6 +659,9 @@ func (wd *world) step(a act) {
 			return
 		}
 		c.status = "parked"
+		if a.Slow {
+			atomic.StoreInt32(&c.ctx.slow, 1)
+		}
 		wd.x.Issue(c.id, func() interface{} { return wd.callerSubmit(c) })
 	case "end":
 		if a.C == 0 {
@@ -670,6 +729,11 @@ func (wd *world) drain() {
 				found = true
 				break
 			}
+			if atomic.LoadInt32(&c.ctx.holding) == 1 {
+				wd.step(act{Op: "done", C: i})
+				found = true
+				break
+			}
 			// a callee waiting for a call it queued behind itself is released through that call's context
 			if n := c.nested; atomic.LoadInt32(&c.running) == 3 && n != 0 && !wd.calls[n].ctx.ended() &&
 				atomic.LoadInt32(&wd.calls[n].running) == 0 {
@@ -697,11 +761,25 @@ func runPlan(w *tr.W, src, kind string, nl, qopt int, withIdx, nowg bool, plan [
 	wd := newWorld(w, src, kind, nl, qopt, withIdx, nowg)
 	wd.cfgOK = qopt >= 0 || qopt == qDefault
 	wd.x = qx.New(maxCalls + 1)
+	tlc := strings.HasPrefix(src, "plan:")
+	age := map[int]int{}
 	for _, a := range plan {
+		if tlc && a.Op == "inv" && a.Pre && a.C%2 == 0 {
+			a.Slow = true // TLC's plans know no slow submitter: every other pre-ended call gets one
+		}
 		if !wd.applicable(a) {
 			continue // the verdict is about what is recorded; skipping only loses coverage
 		}
 		wd.step(a)
+		if tlc { // ... who looks at its context two steps later
+			for i := 1; i <= maxCalls; i++ {
+				if atomic.LoadInt32(&wd.calls[i].ctx.holding) == 1 {
+					if age[i]++; age[i] > 2 {
+						wd.step(act{Op: "done", C: i})
+					}
+				}
+			}
+		}
 	}
 	wd.drain()
 }
@@ -752,14 +830,28 @@ func randPlan(rng *rand.Rand, nl, n int) []act {
 		out = append(out, act{Op: "run"}, act{Op: "stopi"})
 	}
 	for i := 0; i < n; i++ {
-		switch x := rng.Intn(106); {
+		switch x := rng.Intn(114); {
+		case x >= 110 && next <= maxCalls:
+			// a submitter with an already ended context that is slow to look at it, on a lane that has
+			// just answered another call: by then its own answer (or skip) is there too
+			h := pool[rng.Intn(len(pool))]
+			if rng.Intn(2) == 0 && next+1 <= maxCalls {
+				out = append(out, act{Op: "inv", C: next, H: h, Fail: rng.Intn(2) == 0}, act{Op: "end", C: next})
+				next++
+			}
+			out = append(out, act{Op: "inv", C: next, H: h, Pre: true, Slow: true}, act{Op: "end", C: next}, act{Op: "done", C: next})
+			next++
+		case x >= 106:
+			out = append(out, act{Op: "done"})
 		case x >= 103:
 			out = append(out, act{Op: "cfg"})
 		case x >= 100 && next <= maxCalls: // a running callee calls into its own executor
 			out = append(out, act{Op: "nest", By: 0, C: next, H: pool[rng.Intn(len(pool))], Pre: rng.Intn(3) == 0})
 			next++
 		case x < 35 && next <= maxCalls:
-			out = append(out, act{Op: "inv", C: next, H: pool[rng.Intn(len(pool))], Fail: rng.Intn(3) == 0, Pre: rng.Intn(8) == 0})
+			pre := rng.Intn(8) == 0
+			out = append(out, act{Op: "inv", C: next, H: pool[rng.Intn(len(pool))], Fail: rng.Intn(3) == 0, Pre: pre,
+				Slow: rng.Intn(8) == 0 || (pre && rng.Intn(2) == 0)})
 			next++
 		case x < 70:
 			out = append(out, act{Op: "end", C: rng.Intn(maxCalls+1) * rng.Intn(2)}) // a given call or any
